@@ -20,6 +20,7 @@ import (
 	"os"
 	"path/filepath"
 	"runtime"
+	"runtime/debug"
 	"sort"
 	"strings"
 	"sync"
@@ -1188,6 +1189,12 @@ func main() {
 	}
 
 	var rc Case
+	if r.ReplayCase(&rc) && rc.Seed == "hs_interleave" {
+		w.child.Close()
+		interleave(r) // the whole (small) in-process family
+		cleanScratch()
+		r.Finish()
+	}
 	if r.ReplayCase(&rc) {
 		k, res, extra := runOne(rc)
 		fmt.Printf("replay: %s -> client saw %q, verdict %q, sent %s\n%s\n", rc, res.outcome, k, hex.EncodeToString(res.sent), tail(extra, 3000))
@@ -1198,6 +1205,13 @@ func main() {
 		cleanScratch()
 		r.Finish()
 	}
+
+	// ---- in-process part: interleaved handshakes -------------------------------------
+	// "every VALID login succeeds whatever another client sends": the order A reads its
+	// handshake response -> B's packet is read (buffer pool) -> A's password check cannot be
+	// forced through TCP, so it is played over net.Pipe on the real functions, GC off and
+	// the goroutine pinned so that the buffer pool hands B the buffer A just returned.
+	inter := interleave(r)
 
 	cases := universe(r.Thorough())
 	if f := os.Getenv("C38_ONLY"); f != "" {
@@ -1215,6 +1229,7 @@ func main() {
 		workers = maxWorkers
 	}
 	var next, done int64
+	done = int64(inter)
 	outcomes := map[string]int{}
 	var omu sync.Mutex
 	var recent []Case   // the last cases that completed without any sign of trouble (a crash may come late)
@@ -1559,6 +1574,61 @@ func main() {
 	cleanScratch()
 	r.Assume("a hang is reported only if no packet and no close arrives within 10 s in 5 consecutive runs; a server that waits because the packet header announced more bytes than were sent is not a hang: the client half-closes and the server must close")
 	r.Finish()
+}
+
+// interleave enumerates B's packet over sizes around the pool's bucket boundaries and A's
+// own packet size x fill bytes; A's login (valid user, valid proof) must succeed.
+func interleave(r *ev.Run) int {
+	f, err := fakemysql.Start(fakemysql.Options{Name: "inproc", NoLog: true})
+	if err != nil {
+		ev.Fatalf("fakemysql: %v", err)
+	}
+	defer f.Close()
+	p, err := e2erig.StartProxy("c38", e2erig.Namespace("ns_inproc", 2, f.Addr()))
+	if err != nil {
+		ev.Fatalf("in-process proxy: %v", err)
+	}
+	defer p.Close()
+	defer debug.SetGCPercent(debug.SetGCPercent(-1))
+	runtime.LockOSThread()
+	defer runtime.UnlockOSThread()
+	build := func(salt []byte) []byte {
+		return e2erig.HandshakeResponse(uint32(e2erig.DefaultCaps), 45, e2erig.User, e2erig.NativePassword(salt, e2erig.Password), "", "")
+	}
+	alen := len(build(make([]byte, 20)))
+	sizes := uniqInts([]int{1, 16, 31, 32, 33, alen - 1, alen, alen + 1, 63, 64, 65, 127, 128, 129, 256, 1024})
+	n := 0
+	for _, size := range sizes {
+		for _, fill := range []int{0x00, 0x58, 0xff} {
+			n++
+			one := func() error {
+				return server.VerifHandshakeInterleaved(p.Srv, build, bytesOf(byte(fill), size))
+			}
+			err := one()
+			key := "hs_interleave|login_ok"
+			if err != nil {
+				again := 0
+				for i := 0; i < 5; i++ {
+					if one() != nil {
+						again++
+					}
+				}
+				if again == 5 {
+					key = "hs_interleave|login_refused"
+					r.Violation(ev.Witness{
+						Summary:  fmt.Sprintf("hs_interleave: session A (valid user and proof) is refused (%v) when session B's packet of %d bytes 0x%02x is read between A's handshake response and A's password check (6 of 6 runs); A's response is %d bytes", err, size, fill, alen),
+						Features: map[string]string{"kind": "other_session_affected", "seed": "hs_interleave", "mutation": "bpkt", "client": "login_refused", "site": "", "cpu": ""},
+						Case:     Case{Seed: "hs_interleave", Muts: []Mut{{K: "bpkt", P: size, V: fill}}},
+					})
+				} else {
+					r.Add("unconfirmed_interleave_failures", 1)
+				}
+			}
+			r.Distinct("outcomes", key)
+		}
+	}
+	r.Set("interleaved_handshake_cases", n)
+	return n
 }
 
 func crashSite(stderr string) string {
